@@ -276,7 +276,7 @@ func filterReference(text string, data interface{}) string {
 // ---------------------------------------------------------------- C19
 
 func fragDump(g *Gen, n int, o *Out) {
-	indents := []string{"", " ", "  ", "\t", "--", "é", "%s", "\n", "-", "-1", "1", "11", "-11"}
+	indents := []string{"", " ", "  ", "\t", "--", "é", "%s", "\n", "-", "-1", "1", "11", "-11", "%", "%%", "%d", "%[1]s", "\\"}
 	for i := 0; i < n; i++ {
 		text, _, ok := g.renderTop(g.randTree(3))
 		if !ok {
@@ -286,6 +286,19 @@ func fragDump(g *Gen, n int, o *Out) {
 		lvl := g.r.Intn(4)
 		if g.r.Intn(3) == 0 {
 			lvl = g.r.Intn(13)
+		}
+		if i%25 == 7 {
+			// deep trees and high start levels: nesting stays one indent per tree level at every depth
+			k := []int{31, 32, 33, 40, 64, 100}[g.r.Intn(6)]
+			parts := make([]string, k)
+			for j := range parts {
+				parts[j] = fmt.Sprintf("f%d == %d", j, j)
+			}
+			text = strings.Join(parts, []string{" and ", " or "}[g.r.Intn(2)])
+			if g.r.Intn(3) == 0 {
+				text = strings.Repeat("any a as x { ", k/2) + "x == 1" + strings.Repeat(" }", k/2)
+			}
+			lvl = []int{0, 1, 30, 33, 64, 200}[g.r.Intn(6)]
 		}
 		req, ans := dumpCase(text, ind, lvl)
 		o.emit(req, ans)
@@ -710,7 +723,16 @@ func fragDet(g *Gen, n int, o *Out) {
 				xs[k], xi[k], xb[k], xf[k], xl[k] = []string{"x", "y", "z"}[j%3], j%3, j%2 == 0, float64(j%3), []string{[]string{"x", "y", "z"}[j%3]}
 			}
 			tdatum["xs"], tdatum["xi"], tdatum["xb"], tdatum["xf"], tdatum["xl"], tdatum["Port"] = xs, xi, xb, xf, xl, 8080
+			groups := map[string]interface{}{}
+			for j, k := range keys {
+				groups[k] = map[string]interface{}{"a": j % 3, "b": []string{"x", "y"}[j%2], "c": []int{7}}
+			}
+			tdatum["groups"], tdatum["k"] = groups, map[string]interface{}{"a": 1, "b": "s", "c": []int{7}}
 			texts := []string{
+				fmt.Sprintf("%s groups as _, g { any g as _, x { x == 1 } }", c.Op),
+				fmt.Sprintf("%s groups as gk, g { all g as k, x { x != 9 and gk != k } }", c.Op),
+				fmt.Sprintf("%s k as k, x { x == 1 }", c.Op),
+				fmt.Sprintf("%s groups as g { any groups as h, v { any v as w { w == \"c\" and h == g } } }", c.Op),
 				fmt.Sprintf("%s xs as k, v { v == \"x\" or Port == \"http\" }", c.Op),
 				fmt.Sprintf("%s %s as k, v { v == 1 or Port == \"http\" }", c.Op, []string{"xi", "xf"}[g.r.Intn(2)]),
 				fmt.Sprintf("%s xb as k, v { v == true or Missing == 1 }", c.Op),
